@@ -314,6 +314,8 @@ func specInScope(stack []scope, n int, s scope) bool {
 //@   ensures[C06] arity-and-types-match-parameters: err == nil && params != nil ==> len(result0) == len(params) && forall(k, 0, len(params), params[k].valueType.Equals(result0[k].ValueType()))
 //
 //@ func (*Parser).evaluateBuiltInFunction
+//@   param stmtCallout ensures[C13] a-statement-or-an-error: err == nil ==> result != nil
+//@   ensures[C13] a-statement-or-an-error: err == nil ==> result0 != nil
 //@   flag inline: true
 //@   loop @"for" invariant[C06] arguments-typed: forall(k, 0, len(expressions), specTyped(expressions[k]))
 //
@@ -333,18 +335,24 @@ func specInScope(stack []scope, n int, s scope) bool {
 //@   ensures[C07] a-function-without-results-does-not-end-in-a-return: result == nil && len(returnTypes) == 0 && len(statements) > 0 ==> !isType(statements[len(statements)-1], "parser.Return")
 //
 //@ func (*Parser).evaluateFunctionDefinition
+//@   ensures[C13] a-statement-or-an-error: err == nil ==> result0 != nil
 //@   callsite addVariables requires[C07,C09] parameters-are-never-globals: !arg2
 //@   ensures[C07] second-function-of-the-same-name-rejected: old(specHasFunction(ctx, p.peekAt(1).value, p.prefix)) ==> err != nil
 //@   ensures[C06] parameters-always-checked: err == nil ==> asType(result0, "parser.FunctionDefinition").params != nil
 //@   ensures[C07] only-at-top-level: !ctx.global() ==> err != nil
 //
 //@ func (*Parser).evaluateSwitch
+//@   ensures[C13] a-statement-or-an-error: err == nil ==> result0 != nil
 //@   loop @"CLOSING_CURLY_BRACKET" invariant[C01,C12] the-token-decided-on-is-the-current-token: nextToken == p.peek()
 //@   loop @"CLOSING_CURLY_BRACKET" invariant[C01,C04] one-branch-per-case: (useMock ==> calls(evaluateExpression) == ite(old(p.peekAt(1)).tokenType == lexer.OPENING_CURLY_BRACKET, 0, 1) && len(fakeIf.elifBranches) == 0) && (!useMock ==> 1 + len(fakeIf.elifBranches) == calls(evaluateExpression) - ite(old(p.peekAt(1)).tokenType == lexer.OPENING_CURLY_BRACKET, 0, 1))
 //@   ensures[C01,C04,FINDING] the-tag-is-evaluated-once-however-many-cases-compare-with-it: err == nil && old(p.peekAt(1)).tokenType != lexer.OPENING_CURLY_BRACKET && calls(evaluateExpression) >= 3 ==> specNoCall(res(evaluateExpression, 0, 0))
 //@   ensures[C01,C04] one-branch-per-case-in-order: err == nil && calls(evaluateExpression) > ite(old(p.peekAt(1)).tokenType == lexer.OPENING_CURLY_BRACKET, 0, 1) ==> isType(result0, "parser.If") && 1 + len(asType(result0, "parser.If").elifBranches) == calls(evaluateExpression) - ite(old(p.peekAt(1)).tokenType == lexer.OPENING_CURLY_BRACKET, 0, 1)
 //
 //@ func (*Parser).evaluateImports
+//@   loop @"for#1" invariant[C13] every-imported-statement-so-far-is-there: forall(k, 0, len(statementsTemp), statementsTemp[k] != nil)
+//@   loop @"for#2" invariant[C13] every-imported-statement-so-far-is-there: forall(k, 0, len(statementsTemp), statementsTemp[k] != nil)
+//@   loop @"range statementsTemp" invariant[C13] every-statement-kept-so-far-is-there: forall(k, 0, len(statements), statements[k] != nil) && forall(k, 0, len(statementsTemp), statementsTemp[k] != nil)
+//@   ensures[C13] every-statement-is-there: err == nil ==> forall(k, 0, len(result0), result0[k] != nil)
 //@   loop @"range usedFuncs" invariant[C09,C16] merge-keeps-imported-edges: has(p.usedFuncs, funcName) && forall(k, 0, rangeindex + 1, inList(get(p.usedFuncs, funcName), usedFuncs[k])) && samePrefix(foundUsedFuncs, get(p.usedFuncs, funcName))
 //@   loop @"range usedFuncs" exit[C09,C16] every-imported-edge-of-this-caller-merged: forall(k, 0, len(usedFuncs), inList(get(p.usedFuncs, funcName), usedFuncs[k]))
 //@   loop @"range statementsTemp" invariant[C09] imported-top-level-code-kept: len(statements) >= specCountOther(statementsTemp, rangeindex + 1)
@@ -355,6 +363,8 @@ func specInScope(stack []scope, n int, s scope) bool {
 //@ type-invariant context c [C13] maps-and-scope: c.variables != nil && c.functions != nil && c.imports != nil && len(c.scopeStack) >= 1
 //
 //@ func (*Parser).evaluateBlockContent
+//@   loop @"for loop" invariant[C13] every-statement-collected-so-far-is-there: forall(k, 0, len(statements), statements[k] != nil)
+//@   ensures[C13] every-statement-is-there: forall(k, 0, len(result0), result0[k] != nil)
 //@   loop @"for loop" invariant[C07] flag-only-cleared-on-the-way-out: loop
 //@   ensures[C07] callback-called-last-with-the-end-flag: err == nil && callback != nil ==> calls(callback) >= 1 && arg(callback, calls(callback) - 1, 1) && res(callback, calls(callback) - 1, 0) == nil
 //@   ensures[C07] callback-sees-the-complete-block: err == nil && callback != nil ==> calls(callback) >= 1 && len(arg(callback, calls(callback) - 1, 0)) == len(result0)
@@ -375,15 +385,18 @@ func specInScope(stack []scope, n int, s scope) bool {
 //@   flag notypeinv: true
 //@   requires[C13] context-has-its-maps: ctx.variables != nil && ctx.functions != nil && ctx.imports != nil
 //@ func (*Parser).evaluateProgram
+//@   ensures[C13] every-statement-is-there: err == nil ==> forall(k, 0, len(result0.body), result0.body[k] != nil)
 //@   flag nocommon: true
 // The prefix that keeps the definitions of an imported file apart is a digest of the bytes of that
 // file and of nothing else (not of its path): the same file has the same prefix wherever it lies.
 //@ func (*Parser).parse
+//@   ensures[C13] every-statement-is-there: err == nil ==> forall(k, 0, len(result0.body), result0.body[k] != nil)
 //@   flag nocommon: true
 //@   ensures[C09,C14] prefix-hashes-exactly-the-file-content: imported && err == nil ==> calls(crypto_sha256_New) == 1 && seq(crypto_sha256_New, 0) < seq(Write, 0) && calls(Write) == 1 && calls(os_ReadFile) == 1 && arg(Write, 0, 0) == res(os_ReadFile, 0, 0) && calls(Sum) == 1 && seq(Write, 0) < seq(Sum, 0)
 //@   callsite evaluateProgram requires[C13,C14] the-parser-remembers-exactly-the-path-it-was-given: calls(path_filepath_IsAbs) == 1 && (res(path_filepath_IsAbs, 0, 0) ==> p.path == arg(path_filepath_IsAbs, 0, 0)) && (!res(path_filepath_IsAbs, 0, 0) ==> calls(path_filepath_Abs) == 1 && arg(path_filepath_Abs, 0, 0) == arg(path_filepath_IsAbs, 0, 0) && p.path == res(path_filepath_Abs, 0, 0)) && calls(os_ReadFile) == 1 && arg(os_ReadFile, 0, 0) == p.path
 //@   ensures[C13,C14] the-path-examined-is-the-path-given: calls(path_filepath_IsAbs) >= 1 && arg(path_filepath_IsAbs, 0, 0) == path
 //@ func (*Parser).Parse
+//@   ensures[C13] every-statement-is-there: err == nil ==> forall(k, 0, len(result0.body), result0.body[k] != nil)
 //@   flag nocommon: true
 //
 //@ define inList(l, x): exists(i, 0, len(l), l[i] == x)
@@ -396,8 +409,9 @@ func specInScope(stack []scope, n int, s scope) bool {
 // definition and every function whose name the reachability closure of the top-level code
 // (getUsedFuncs("")) contains is still there afterwards, and what is kept keeps its order.
 //@ func (*Parser).cleanProgram
+//@   ensures[C13] every-statement-is-there: forall(k, 0, len(result0.body), result0.body[k] != nil)
 //@   ensures[C09,C16] closure-of-the-top-level-code-decides: calls(getUsedFuncs) == 1 && arg(getUsedFuncs, 0, 1) == ""
-//@   ensures[C09,C16] reachable-functions-and-all-other-statements-are-kept: err == nil && forall(k, 0, len(program.body), (program.body[k].StatementType() != STATEMENT_TYPE_FUNCTION_DEFINITION || inList(res(getUsedFuncs, 0, 0), asType(program.body[k], "parser.FunctionDefinition").name)) ==> inList(result0.body, program.body[k]))
+//@   ensures[C09,C16,C10] reachable-functions-and-all-other-statements-are-kept: err == nil && forall(k, 0, len(program.body), (program.body[k].StatementType() != STATEMENT_TYPE_FUNCTION_DEFINITION || inList(res(getUsedFuncs, 0, 0), asType(program.body[k], "parser.FunctionDefinition").name)) ==> inList(result0.body, program.body[k]))
 //@   ensures[C09] nothing-is-added: forall(j, 0, len(result0.body), inList(program.body, result0.body[j]))
 //
 //@ func (*Parser).getUsedFuncs
@@ -413,6 +427,7 @@ func specInScope(stack []scope, n int, s scope) bool {
 //@   ensures[C07,C09] upper-case-first-letter-only: len(name) > 0 && name[0] < 128 ==> result == (name[0] >= 65 && name[0] <= 90)
 
 //@ func (*Parser).evaluateStatement
+//@   ensures[C13] a-statement-or-an-error: err == nil ==> result0 != nil
 //@   ensures[C06,C16] a-value-cannot-stand-alone-as-a-statement: err == nil && calls(evaluateExpression) == 1 ==> result0 != nil && !specUnusedValueKind(result0.StatementType())
 //@   callsite findVariable requires[C07,C09] a-name-is-looked-up-under-this-files-prefix-and-the-current-scope: arg2 == p.prefix && arg3 == ctx.global()
 //
@@ -422,9 +437,11 @@ func specInScope(stack []scope, n int, s scope) bool {
 // write(path, data[, append]): the parser checks the path and the append flag (the data type is
 // checked by the transpiler, see its evaluateWrite); the arguments are typed expressions.
 //@ func (*Parser).evaluateWrite
+//@   ensures[C13] a-statement-or-an-error: err == nil ==> result0 != nil
 //@   ensures[C06,C17] path-is-a-string-and-the-append-flag-a-boolean: err == nil ==> isType(result0, "parser.Write") && specTyped(asType(result0, "parser.Write").path) && asType(result0, "parser.Write").path.ValueType().IsString() && specTyped(asType(result0, "parser.Write").data) && asType(result0, "parser.Write").append.ValueType().IsBool()
 //
 //@ func (*Parser).evaluatePanic
+//@   ensures[C13] a-statement-or-an-error: err == nil ==> result0 != nil
 //@   ensures[C06,C13] exactly-one-typed-argument: err == nil ==> isType(result0, "parser.Panic") && specTyped(asType(result0, "parser.Panic").expression)
 
 //@ func functionValueType
@@ -440,12 +457,14 @@ func specInScope(stack []scope, n int, s scope) bool {
 //@   flag modular: true
 //
 //@ func (*Parser).evaluateVarDefinition
+//@   ensures[C13] a-statement-or-an-error: err == nil ==> result0 != nil
 //@   ensures[C07,C10] every-declared-name-is-checked-against-the-visible-ones: err == nil ==> calls(evaluateVarNames) == 1 && calls(checkNewVariableNameToken) == len(res(evaluateVarNames, 0, 0)) && forall(k, 0, len(res(evaluateVarNames, 0, 0)), arg(checkNewVariableNameToken, k, 1) == res(evaluateVarNames, 0, 0)[k])
 //@   loop @"range nameTokens#1" invariant[C07] no-name-twice-so-far: forall(a, 0, rangeindex + 1, forall(b, 0, a, nameTokens[b].value != nameTokens[a].value))
 //@   loop @"range nameTokens[:i]" invariant[C07] the-name-differs-from-the-earlier-ones: forall(b, 0, rangeindex + 1, nameTokens[b].value != nameToken.value)
 //@   callsite checkNewVariableNameToken requires[C07] no-name-is-declared-twice-in-one-definition: forall(a, 0, len(nameTokens), forall(b, 0, a, nameTokens[b].value != nameTokens[a].value))
 //@   loop @"range nameTokens#2" invariant[C07,C10] names-checked-so-far: calls(checkNewVariableNameToken) == rangeindex + 1 && forall(k, 0, rangeindex + 1, arg(checkNewVariableNameToken, k, 1) == nameTokens[k])
 //@   loop @"range nameTokens#3" invariant[C06] a-variable-that-already-exists-keeps-its-type: len(variables) == rangeindex + 1 && forall(k, 0, rangeindex + 1, specVarVisible(ctx, nameTokens[k].value, p.prefix) ==> variables[k].valueType == get(ctx.variables, specVarKey(ctx, nameTokens[k].value, p.prefix)).valueType)
+//@   loop @"range variables#2" invariant[C13] one-default-value-per-variable-so-far: len(values) == rangeindex + 1 && forall(k, 0, len(values), values[k] != nil)
 //@   loop @"range values" invariant[C06] types-of-the-values-in-order: len(valuesTypes) == rangeindex + 1 && forall(k, 0, len(valuesTypes), valuesTypes[k] == values[k].ValueType())
 //@   loop @"range variables#1" invariant[C06] variables-so-far-take-a-value-of-their-type: len(variables) == len(valuesTypes) && forall(k, 0, rangeindex + 1, variables[k].valueType.Equals(valuesTypes[k]))
 //@   ensures[C06] each-value-has-the-type-of-its-variable: err == nil && isType(result0, "parser.VariableDefinition") && calls(evaluateValues) == 1 ==> len(asType(result0, "parser.VariableDefinition").variables) == len(asType(result0, "parser.VariableDefinition").values) && forall(k, 0, len(asType(result0, "parser.VariableDefinition").values), asType(result0, "parser.VariableDefinition").variables[k].valueType.Equals(asType(result0, "parser.VariableDefinition").values[k].ValueType()))
@@ -458,6 +477,7 @@ func specInScope(stack []scope, n int, s scope) bool {
 //@   ensures[C07] visible-name-rejected: (result != nil) == specVarVisible(ctx, token.value, p.prefix)
 //
 //@ func (*Parser).evaluateVarAssignment
+//@   ensures[C13] a-statement-or-an-error: err == nil ==> result0 != nil
 //@   callsite findVariable requires[C07,C09] a-name-is-looked-up-under-this-files-prefix-and-the-current-scope: arg2 == p.prefix && arg3 == ctx.global()
 //@   loop @"range evaluatedVals.values" invariant[C06] types-of-the-values: len(valuesTypes) == rangeindex + 1 && forall(k, 0, rangeindex + 1, valuesTypes[k] == res(evaluateValues, 0, 0).values[k].ValueType())
 //@   ensures[C06] value-k-has-the-type-of-variable-k: err == nil && isType(result0, "parser.VariableAssignment") ==> len(asType(result0, "parser.VariableAssignment").values) == len(asType(result0, "parser.VariableAssignment").variables) && forall(k, 0, len(asType(result0, "parser.VariableAssignment").variables), specTyped(asType(result0, "parser.VariableAssignment").values[k]) && asType(result0, "parser.VariableAssignment").values[k].ValueType() == asType(result0, "parser.VariableAssignment").variables[k].valueType)
@@ -465,6 +485,7 @@ func specInScope(stack []scope, n int, s scope) bool {
 //@   loop @"range nameTokens" invariant[C06] variable-k-has-the-type-of-value-k: forall(k, 0, rangeindex + 1, variables[k].valueType == valuesTypes[k]) && len(valuesTypes) == len(res(evaluateVarNames, 0, 0))
 //
 //@ func (*Parser).evaluateIncrementDecrement
+//@   ensures[C13] a-statement-or-an-error: err == nil ==> result0 != nil
 //@   callsite findVariable requires[C07,C09] a-name-is-looked-up-under-this-files-prefix-and-the-current-scope: arg2 == p.prefix && arg3 == ctx.global()
 //@   ensures[C06] the-counted-variable-is-an-integer: err == nil ==> specTyped(asType(result0, "parser.VariableAssignment").values[0]) && asType(result0, "parser.VariableAssignment").values[0].ValueType().IsInt()
 //@   ensures[C01,C02] plus-or-minus-one-on-the-defined-variable: err == nil ==> isType(result0, "parser.VariableAssignment") && len(asType(result0, "parser.VariableAssignment").variables) == 1 && len(asType(result0, "parser.VariableAssignment").values) == 1 && isType(asType(result0, "parser.VariableAssignment").values[0], "parser.BinaryOperation") && asType(asType(result0, "parser.VariableAssignment").values[0], "parser.BinaryOperation").right == specIntLit(1)
@@ -474,12 +495,14 @@ func specInScope(stack []scope, n int, s scope) bool {
 //@   ensures[C01] same-variable-both-sides: isType(result, "parser.VariableAssignment") && asType(result, "parser.VariableAssignment").variables[0] == variable && asType(asType(asType(result, "parser.VariableAssignment").values[0], "parser.BinaryOperation").left, "parser.VariableEvaluation").Variable == variable && (increment ==> asType(asType(result, "parser.VariableAssignment").values[0], "parser.BinaryOperation").operator == "+") && (!increment ==> asType(asType(result, "parser.VariableAssignment").values[0], "parser.BinaryOperation").operator == "-")
 //
 //@ func (*Parser).evaluateIf
+//@   ensures[C13] a-statement-or-an-error: err == nil ==> result0 != nil
 //@   loop @"for true" invariant[C06] conditions-so-far-boolean: i >= 0 && (i >= 1 ==> specTyped(ifStatement.ifBranch.condition) && ifStatement.ifBranch.condition.ValueType().IsBool()) && forall(k, 0, len(ifStatement.elifBranches), specTyped(ifStatement.elifBranches[k].condition) && ifStatement.elifBranches[k].condition.ValueType().IsBool())
 //@   loop @"for true" invariant[C01,C04] branches-so-far-kept-in-order: calls(evaluateBlock) == i && (i == 0 ==> calls(evaluateExpression) == 0) && (i >= 1 ==> calls(evaluateExpression) == 1 + len(ifStatement.elifBranches) && ifStatement.ifBranch.condition == res(evaluateExpression, 0, 0) && ifStatement.ifBranch.body == res(evaluateBlock, 0, 0)) && forall(k, 0, len(ifStatement.elifBranches), ifStatement.elifBranches[k].condition == res(evaluateExpression, k + 1, 0))
 //@   ensures[C01,C04] every-else-if-branch-kept-in-source-order: err == nil ==> calls(evaluateExpression) == 1 + len(asType(result0, "parser.If").elifBranches) && asType(result0, "parser.If").ifBranch.condition == res(evaluateExpression, 0, 0) && asType(result0, "parser.If").ifBranch.body == res(evaluateBlock, 0, 0) && forall(k, 0, len(asType(result0, "parser.If").elifBranches), asType(result0, "parser.If").elifBranches[k].condition == res(evaluateExpression, k + 1, 0))
 //@   ensures[C06] every-condition-boolean: err == nil ==> isType(result0, "parser.If") && specTyped(asType(result0, "parser.If").ifBranch.condition) && asType(result0, "parser.If").ifBranch.condition.ValueType().IsBool() && forall(k, 0, len(asType(result0, "parser.If").elifBranches), specTyped(asType(result0, "parser.If").elifBranches[k].condition) && asType(result0, "parser.If").elifBranches[k].condition.ValueType().IsBool())
 //
 //@ func (*Parser).evaluateFor
+//@   ensures[C13] a-statement-or-an-error: err == nil ==> result0 != nil
 //@   ensures[C07,C10] both-range-variables-are-checked-against-the-visible-names: err == nil && old(p.peekAt(1)).tokenType == lexer.IDENTIFIER && old(p.peekAt(2)).tokenType == lexer.COMMA ==> calls(checkNewVariableNameToken) >= 2 && arg(checkNewVariableNameToken, 0, 1) == old(p.peekAt(1)) && arg(checkNewVariableNameToken, 1, 1) == old(p.peekAt(3))
 //@   callsite addVariables requires[C07,C09] loop-variables-are-never-globals: !arg2
 //@   callsite evaluateBlock requires[C01,C03] a-range-loop-counts-from-zero-while-the-index-is-below-the-current-length: len(init.variables) == 1 && init.variables[0] == indexVar && len(init.values) == 1 && init.values[0] == specIntLit(0) && condition.left == specVarEval(indexVar) && condition.operator == COMPARE_OPERATOR_LESS && condition.right == specLen(iterableExpression) && increment == incrementDecrementStatement(indexVar, true) && indexVar.name == indexVarName && indexVar.valueType.dataType == DATA_TYPE_INTEGER && !indexVar.valueType.isSlice
@@ -491,10 +514,12 @@ func specInScope(stack []scope, n int, s scope) bool {
 //@   ensures[C06] condition-boolean: err == nil ==> isType(result0, "parser.For") && specTyped(asType(result0, "parser.For").condition) && asType(result0, "parser.For").condition.ValueType().IsBool()
 //
 //@ func (*Parser).evaluateSliceAssignment
+//@   ensures[C13] a-statement-or-an-error: err == nil ==> result0 != nil
 //@   callsite findVariable requires[C07,C09] a-name-is-looked-up-under-this-files-prefix-and-the-current-scope: arg2 == p.prefix && arg3 == ctx.global()
 //@   ensures[C06] index-int-value-of-element-type: err == nil ==> isType(result0, "parser.SliceAssignment") && specTyped(asType(result0, "parser.SliceAssignment").index) && asType(result0, "parser.SliceAssignment").index.ValueType().IsInt() && specTyped(asType(result0, "parser.SliceAssignment").value) && asType(result0, "parser.SliceAssignment").Variable.valueType.isSlice && asType(result0, "parser.SliceAssignment").value.ValueType().Equals(NewValueType(asType(result0, "parser.SliceAssignment").Variable.valueType.dataType, false))
 //
 //@ func (*Parser).evaluateValues
+//@   ensures[C13] every-value-is-there: err == nil ==> forall(k, 0, len(result0.values), result0.values[k] != nil)
 //@   loop @"for" invariant[C06] values-so-far-typed: forall(k, 0, len(expressions), specTyped(expressions[k]))
 //@   ensures[C06,C13] typed-and-non-empty: err == nil ==> len(result0.values) >= 1 && forall(k, 0, len(result0.values), specTyped(result0.values[k]))
 //
@@ -503,6 +528,7 @@ func specInScope(stack []scope, n int, s scope) bool {
 //@   ensures[C13] at-least-one-name: err == nil ==> len(result0) >= 1
 //
 //@ func (*Parser).evaluateCompoundAssignment
+//@   ensures[C13] a-statement-or-an-error: err == nil ==> result0 != nil
 //@   callsite findVariable requires[C07,C09] a-name-is-looked-up-under-this-files-prefix-and-the-current-scope: arg2 == p.prefix && arg3 == ctx.global()
 //@   ensures[C06] exactly-one-value-on-the-right: err == nil ==> len(res(evaluateValues, 0, 0).values) == 1 && !res(evaluateValues, 0, 0).isMultiReturnCall()
 //@   ensures[C02] the-target-is-the-defined-variable: err == nil ==> len(asType(result0, "parser.VariableAssignment").variables) == 1 && has(ctx.variables, specVarKey(ctx, res(evaluateVarNames, 0, 0)[0].value, p.prefix)) && asType(result0, "parser.VariableAssignment").variables[0] == get(ctx.variables, specVarKey(ctx, res(evaluateVarNames, 0, 0)[0].value, p.prefix))
@@ -510,12 +536,15 @@ func specInScope(stack []scope, n int, s scope) bool {
 //@   ensures[C06] typed-operation-on-the-defined-variable: err == nil ==> isType(result0, "parser.VariableAssignment") && len(asType(result0, "parser.VariableAssignment").values) == 1 && specTyped(asType(result0, "parser.VariableAssignment").values[0])
 //
 //@ func (*Parser).evaluateBreak
+//@   ensures[C13] a-statement-or-an-error: err == nil ==> result0 != nil
 //@   ensures[C07,C13] only-in-loop-or-switch: (err == nil) == (specInScope(ctx.scopeStack, len(ctx.scopeStack), "for") || specInScope(ctx.scopeStack, len(ctx.scopeStack), "switch"))
 //
 //@ func (*Parser).evaluateContinue
+//@   ensures[C13] a-statement-or-an-error: err == nil ==> result0 != nil
 //@   ensures[C07,C13,C16] only-in-loop: (err == nil) == specInScope(ctx.scopeStack, len(ctx.scopeStack), "for")
 //
 //@ func (*Parser).evaluateReturn
+//@   ensures[C13] a-statement-or-an-error: err == nil ==> result0 != nil
 //@   ensures[C07] only-in-function: !specInScope(ctx.scopeStack, len(ctx.scopeStack), "function") ==> err != nil
 //
 //@ func (context).addVariables
@@ -546,3 +575,55 @@ func specVarEval(v Variable) Expression { return VariableEvaluation{v} }
 func specLen(e Expression) Expression { return Len{e} }
 
 func specStrLit(v string) Expression { return StringLiteral{value: v} }
+
+// ----------------------------------------------------------------------------
+// Node invariants: what every AST node that is ever handed out as a Statement / Expression
+// satisfies.  Owed wherever a node is converted to one of the AST interfaces (obligation
+// `...#node-invariant#T:label`), available for every interface value that is taken apart later
+// (nodes are immutable once boxed).  They say that the children a translation step reads are
+// there: the transpiler never meets a nil child.
+//@ node-invariant Group g [C13] has-its-child: g.child != nil
+//@ node-invariant UnaryOperation u [C13] has-its-operand: u.expr != nil
+//@ node-invariant BinaryOperation b [C13] has-both-operands: b.left != nil && b.right != nil
+//@ node-invariant Comparison c [C13] has-both-operands: c.left != nil && c.right != nil
+//@ node-invariant LogicalOperation l [C13] has-both-operands: l.left != nil && l.right != nil
+//@ node-invariant Len l [C13] has-its-operand: l.expression != nil
+//@ node-invariant Itoa i [C13] has-its-operand: i.value != nil
+//@ node-invariant Exists e [C13] has-its-path: e.path != nil
+//@ node-invariant Read r [C13] has-its-path: r.path != nil
+//@ node-invariant Write w [C13] has-path-data-and-flag: w.path != nil && w.data != nil && w.append != nil
+//@ node-invariant Copy c [C13] has-its-source: c.source != nil
+//@ node-invariant Panic p [C13] has-its-value: p.expression != nil
+//@ node-invariant SliceEvaluation s [C13] has-value-and-index: s.value != nil && s.index != nil
+//@ node-invariant SliceAssignment s [C13] has-index-and-value: s.index != nil && s.value != nil
+//@ node-invariant StringSubscript s [C13] has-value-and-start: s.value != nil && s.startIndex != nil
+//@ node-invariant Print p [C13] every-value-is-there: forall(k, 0, len(p.expressions), p.expressions[k] != nil)
+//@ node-invariant Return r [C13] every-value-is-there: forall(k, 0, len(r.values), r.values[k] != nil)
+//@ node-invariant SliceInstantiation s [C13] every-element-is-there: forall(k, 0, len(s.values), s.values[k] != nil)
+//@ node-invariant FunctionCall f [C13] every-argument-is-there: forall(k, 0, len(f.arguments), f.arguments[k] != nil)
+//@ node-invariant AppCall a [C13] every-argument-is-there: forall(k, 0, len(a.args), a.args[k] != nil)
+//@ node-invariant VariableDefinition d [C13] one-value-per-variable: len(d.values) == len(d.variables)
+//@ node-invariant VariableDefinition d [C13] every-value-is-there: forall(k, 0, len(d.values), d.values[k] != nil)
+//@ node-invariant VariableAssignment a [C13] one-value-per-variable: len(a.values) == len(a.variables)
+//@ node-invariant VariableAssignment a [C13] every-value-is-there: forall(k, 0, len(a.values), a.values[k] != nil)
+//@ node-invariant VariableDefinitionCallAssignment d [C13] has-its-call: d.call != nil
+//@ node-invariant VariableAssignmentCallAssignment a [C13] has-its-call: a.call != nil
+//@ node-invariant For f [C13] has-condition-and-statements: f.condition != nil && forall(k, 0, len(f.body), f.body[k] != nil)
+//@ node-invariant If i [C13] has-conditions-and-statements: i.ifBranch.condition != nil && forall(k, 0, len(i.ifBranch.body), i.ifBranch.body[k] != nil) && forall(j, 0, len(i.elifBranches), i.elifBranches[j].condition != nil && forall(k, 0, len(i.elifBranches[j].body), i.elifBranches[j].body[k] != nil)) && forall(k, 0, len(i.elseBranch.body), i.elseBranch.body[k] != nil)
+//@ node-invariant FunctionDefinition f [C13] every-statement-is-there: forall(k, 0, len(f.body), f.body[k] != nil)
+//@ node-invariant Program p [C13] every-statement-is-there: forall(k, 0, len(p.body), p.body[k] != nil)
+//
+// ValueType and StatementType of a node never panic on a node that is there: each implementation is
+// verified on its own under its node invariant, with this assumption for the calls on its children
+// (structural induction over the finite tree).
+//@ total ValueType
+//@ total StatementType
+
+//@ func (*Parser).evaluateBlock
+//@   ensures[C13] every-statement-is-there: forall(k, 0, len(result0), result0[k] != nil)
+
+//@ func (*Parser).evaluatePrint
+//@   ensures[C13] a-statement-or-an-error: err == nil ==> result0 != nil
+
+//@ func defaultVarValue
+//@   ensures[C13] a-value-or-an-error: err == nil ==> result0 != nil
